@@ -1,6 +1,7 @@
 from .common import frame_unit, GATE_FILES, TOMO_FILES
 LEVEL = "other"
 EXPLANATION = ('Clause table. PROVED for every single-qubit unitary V = Rz(gamma)Ry(beta)Rz(alpha), angles symbolic (xlift): LIProcessTomography.process() on noiseless data equals choi_from_unitary(V) exactly (the 16x16 transform matrix is inverted exactly); GateFidelity.process(T) = (|tr T^dagger V|^2 + d)/(d(d+1)) for T = V (one) and T = X, H, S. BOUNDED (native floats): LI and gate fidelity for n=2 (CNOT, complex non-symmetric S x T . CZ . Ry); MLE on 8 one-qubit and 4 two-qubit gates (H, S, T, Ry, Rx, T.Ry, SX, Rz Ry Rz, CNOT both targets, SWAP, complex two-qubit gate): positive, trace preserving, fidelity >= 0.99, fidelity one for LI. OUT OF REACH: convergence of the projected gradient iteration for all unitaries (numerical analysis).')
+EXPLANATION = EXPLANATION + ' ADDED IN ROUNDS 5-8. BOUNDED (native): base circuits with their own heralds (groups unpacked), MLE second run and earlier result kept, LI / MLE / GateFidelity objects reused over parameter steps of 0.004 rad and after a failed experiment.'
 ASSUMPTIONS = ["A1: exact reals (xlift units)", "scipy sqrtm / numpy eigh (fidelity, MLE projections): native units only", "MLE convergence (fidelity >= 0.99) is a numerical property: checked on a stated family, not proved"]
 TRUSTED = ["xlift field + numpy proxy + exact Gaussian elimination (pinv of the constant 16x16 transform matrix)", "spec amplitude formula"]
 
